@@ -66,6 +66,7 @@ fn main() {
         "npo-start-sum" => p3r_verif_harness::merklepath::cmd_start_sum(&args[2..]),
         "alpha-chain" => p3r_verif_harness::alusched::cmd_alpha(&args[2..]),
         "digest-npo" => p3r_verif_harness::npodigest::cmd(&args[2..]),
+        "digest-stark" => p3r_verif_harness::stark::cmd_digest(&args[2..]),
         "stark-expand" => p3r_verif_harness::stark::cmd_expand(&args[2..]),
         "stark-gen" => p3r_verif_harness::stark::cmd_gen(&args[2..]),
         "metadata" => p3r_verif_harness::metadata::cmd(&args[2..]),
